@@ -1,7 +1,7 @@
 (* Lemmas for C04: code area, memory layout and pixel rows of the .p8.png codec (Model/P8Png.v, Model/PngStego.v). *)
 From Coq Require Import ZArith List Bool Lia ZifyBool.
-From PV Require Import Base.Prelude Base.ListX Base.PySlice Spec.PxcFormat Generated.K_compress Generated.K_p8png
-  Generated.K_p8png_codec Model.Compress Model.HexSection Model.Gfx Model.Gff Model.PngStego Model.P8Png Proofs.CompressProofs.
+From PV Require Import Base.Prelude Base.ListX Base.PySlice Spec.PxcFormat Spec.P8PngSpec Generated.K_compress Generated.K_p8png
+  Generated.K_p8png_codec Model.Compress Model.HexSection Model.Gfx Model.Gff Model.PngStego Model.P8Png Instances.HoldsC04 Proofs.CompressProofs.
 Ltac Zify.zify_post_hook ::= Z.to_euclidean_division_equations.
 
 
@@ -17,13 +17,10 @@ Qed.
 
 Definition no_nul (l : list Z) : Prop := Forall (fun c => c <> 0) l.
 
-(* the encoding get_bytes_from_code picks fits the code area *)
+(* the code fits the cartridge: as plain text, or compressed (8 header bytes + stream, 16-bit length) *)
 Definition fits (text : list Z) : Prop :=
   exists comp, compress_code text = Ok comp /\
-    if zlen comp <? zlen text then zlen text < 65536 /\ 8 + zlen comp <= 15616 else zlen text <= 15616.
-
-Definition stored_compressed (text : list Z) : Prop :=
-  exists comp, compress_code text = Ok comp /\ zlen comp < zlen text.
+    (zlen text <= 15616 \/ (zlen comp + 8 <= 15616 /\ zlen text < 65536)).
 
 Lemma zeros_setslice n d : zlen d <= n -> 0 <= n ->
   py_setslice (repeat 0 (Z.to_nat n)) 0 (zlen d) d = d ++ repeat 0 (Z.to_nat (n - zlen d)).
@@ -50,41 +47,39 @@ Proof.
   intros Hb Hnf. destruct (compress_code_correct text Hb) as (comp & sfx & Ec & _).
   unfold get_bytes_from_code. rewrite Ec. cbn [bind]. unfold gbc_use_compressed.
   pose proof (zlen_nonneg text). pose proof (zlen_nonneg comp).
-  destruct (zlen comp <? zlen text) eqn:E.
-  - destruct (Z_lt_dec (zlen text) 65536) as [Hl|Hl].
-    + destruct (len_hi_lo (zlen text) ltac:(lia)) as (E1 & E2 & B1 & B2).
-      unfold bytes_of_ints. rewrite E1, E2.
-      assert (Ea : all_bytes [zlen text / 256; zlen text mod 256] = true).
-      { apply all_bytes_Forall. constructor; [exact B1|constructor; [exact B2|constructor]]. }
-      rewrite Ea. cbn [bind]. unfold gbc_too_big.
-      destruct (zlen (gbc_magic ++ [zlen text / 256; zlen text mod 256] ++ gbc_pad ++ comp) >? 32768 - 17152) eqn:Eb; [reflexivity|].
-      exfalso. apply Hnf. exists comp. split; [exact Ec|]. rewrite E.
-      rewrite !zlen_app in Eb. change (zlen gbc_magic) with 4 in Eb. change (zlen gbc_pad) with 2 in Eb.
-      change (zlen [zlen text / 256; zlen text mod 256]) with 2 in Eb. lia.
-    + unfold bytes_of_ints, gbc_len_hi.
-      assert (Ea : all_bytes [Z.shiftr (zlen text) 8; gbc_len_lo (zlen text)] = false).
-      { unfold all_bytes. cbn [forallb]. rewrite Z.shiftr_div_pow2 by lia. change (2 ^ 8) with 256.
-        unfold byteb. assert (E1 : (zlen text / 256 <? 256) = false) by lia. rewrite E1.
-        rewrite andb_false_r. reflexivity. }
-      rewrite Ea. reflexivity.
-  - cbn [bind]. unfold gbc_too_big. destruct (zlen text >? 32768 - 17152) eqn:Eb; [reflexivity|].
-    exfalso. apply Hnf. exists comp. split; [exact Ec|]. rewrite E. lia.
+  assert (Hn1 : ~ zlen text <= 15616) by (intros Hx; apply Hnf; exists comp; auto).
+  assert (Hn2 : ~ (zlen comp + 8 <= 15616 /\ zlen text < 65536)) by (intros Hx; apply Hnf; exists comp; auto).
+  destruct ((zlen comp <? zlen text) && (zlen comp + 8 <=? 32768 - 17152)) eqn:E.
+  - unfold bytes_of_ints, gbc_len_hi.
+    assert (Ea : all_bytes [Z.shiftr (zlen text) 8; gbc_len_lo (zlen text)] = false).
+    { unfold all_bytes. cbn [forallb]. rewrite Z.shiftr_div_pow2 by lia. change (2 ^ 8) with 256.
+      unfold byteb. assert (E1 : (zlen text / 256 <? 256) = false) by lia. rewrite E1.
+      rewrite andb_false_r. reflexivity. }
+    rewrite Ea. reflexivity.
+  - cbn [bind]. unfold gbc_too_big. assert (Eb : (zlen text >? 32768 - 17152) = true) by lia. rewrite Eb. reflexivity.
 Qed.
+
+(* which form is written *)
+Definition is_compressed (code : list Z) : bool :=
+  match compress_code code with Ok comp => gbc_use_compressed (zlen comp) (zlen code) | Err _ => false end.
 
 (* what the area looks like when the code fits *)
 Lemma gbc_fits text : Forall byte text -> fits text ->
   exists comp, compress_code text = Ok comp /\
   get_bytes_from_code text = Ok (
-    if zlen comp <? zlen text
+    if is_compressed text
     then 58 :: 99 :: 58 :: 0 :: zlen text / 256 :: zlen text mod 256 :: 0 :: 0 ::
          comp ++ repeat 0 (Z.to_nat (15616 - 8 - zlen comp))
-    else text ++ repeat 0 (Z.to_nat (15616 - zlen text))).
+    else text ++ repeat 0 (Z.to_nat (15616 - zlen text))) /\
+  (is_compressed text = true -> zlen text < 65536 /\ 8 + zlen comp <= 15616) /\
+  (is_compressed text = false -> zlen text <= 15616).
 Proof.
   intros Hb (comp & Ec & Hf). exists comp. split; [exact Ec|].
-  unfold get_bytes_from_code. rewrite Ec. cbn [bind]. unfold gbc_use_compressed.
+  unfold is_compressed, get_bytes_from_code. rewrite Ec. cbn [bind]. unfold gbc_use_compressed.
   pose proof (zlen_nonneg text). pose proof (zlen_nonneg comp).
-  destruct (zlen comp <? zlen text) eqn:E.
-  - destruct Hf as [Hl Hc]. destruct (len_hi_lo (zlen text) ltac:(lia)) as (E1 & E2 & B1 & B2).
+  destruct ((zlen comp <? zlen text) && (zlen comp + 8 <=? 32768 - 17152)) eqn:E.
+  - assert (Hl : zlen text < 65536) by lia. assert (Hc : 8 + zlen comp <= 15616) by lia.
+    destruct (len_hi_lo (zlen text) ltac:(lia)) as (E1 & E2 & B1 & B2).
     unfold bytes_of_ints. rewrite E1, E2.
     assert (Ea : all_bytes [zlen text / 256; zlen text mod 256] = true).
     { apply all_bytes_Forall. constructor; [exact B1|constructor; [exact B2|constructor]]. }
@@ -96,11 +91,13 @@ Proof.
     assert (Eb : (zlen cb >? 32768 - 17152) = false) by lia. rewrite Eb.
     unfold gbc_area_size. change (32768 - 17152) with 15616.
     rewrite zeros_setslice by lia. rewrite Hcb. unfold cb, gbc_magic, gbc_pad. cbn [app].
-    replace (15616 - (8 + zlen comp)) with (15616 - 8 - zlen comp) by lia. reflexivity.
-  - cbn [bind]. unfold gbc_too_big.
+    replace (15616 - (8 + zlen comp)) with (15616 - 8 - zlen comp) by lia.
+    split; [reflexivity|]. split; [intros _; split; lia|discriminate].
+  - assert (Hl : zlen text <= 15616) by lia.
+    cbn [bind]. unfold gbc_too_big.
     assert (Eb : (zlen text >? 32768 - 17152) = false) by lia. rewrite Eb.
     unfold gbc_area_size. change (32768 - 17152) with 15616.
-    rewrite zeros_setslice by lia. reflexivity.
+    rewrite zeros_setslice by lia. split; [reflexivity|]. split; [discriminate|intros _; exact Hl].
 Qed.
 
 (* ------------------------------------------------------------------ get_code_from_bytes *)
@@ -225,15 +222,6 @@ Proof.
 Qed.
 
 (* ------------------------------------------------------------------ two bits per channel *)
-(* the four channel values written for one pixel, in row order (channel 0..3), and the byte read back *)
-Definition pack4 (r g b a pb : Z) : list Z :=
-  let row := fun i => if i =? 0 then r else if i =? 1 then g else if i =? 2 then b else a in
-  [pn_val_2 row 0 4 pb; pn_val_1 row 0 4 pb; pn_val_0 row 0 4 pb; pn_val_3 row 0 4 pb].
-
-Definition unpack4 (r g b a : Z) : Z :=
-  let row := fun i => if i =? 0 then r else if i =? 1 then g else if i =? 2 then b else a in
-  Z.lor (Z.lor (Z.lor (Z.lor 0 (pd_val_0 row 0 4)) (pd_val_1 row 0 4)) (pd_val_2 row 0 4)) (pd_val_3 row 0 4).
-
 (* one channel: keeps the upper six bits, stores two bits, stays a byte *)
 Definition chan_ok (v : Z) : bool :=
   forallb (fun t => let v' := Z.lor (Z.land v (Z.lnot 3)) t in
@@ -379,16 +367,6 @@ Qed.
 End PixelStep.
 
 (* ------------------------------------------------------------------ one row *)
-Fixpoint pack_row (row bs : list Z) : list Z :=
-  match row with
-  | r :: g :: b :: a :: rest =>
-    match bs with
-    | pb :: bs' => pack4 r g b a pb ++ pack_row rest bs'
-    | [] => r :: g :: b :: a :: pack_row rest []
-    end
-  | _ => []
-  end.
-
 Lemma skipn_cons_nth {A} (l : list A) n x t : skipn n l = x :: t -> nth_error l n = Some x /\ skipn (S n) l = t.
 Proof.
   revert l; induction n as [|n IH]; intros l H.
@@ -463,12 +441,6 @@ Proof.
 Qed.
 
 (* ------------------------------------------------------------------ all rows: writing *)
-Fixpoint pack_rows (w : nat) (rows : list (list Z)) (bs : list Z) : list (list Z) :=
-  match rows with
-  | [] => []
-  | row :: rs => pack_row row (firstn w bs) :: pack_rows w rs (skipn w bs)
-  end.
-
 Definition wf_rows (w : nat) (rows : list (list Z)) : Prop :=
   Forall (fun row => length row = (4 * w)%nat /\ Forall byte row) rows.
 
@@ -488,12 +460,6 @@ Lemma rows_of_picodata_spec picodata w rows : Forall byte picodata -> wf_rows w 
 Proof. intros Hpd Hwf. unfold rows_of_picodata. rewrite (rows_loop picodata w Hpd rows 0 ltac:(lia) Hwf). reflexivity. Qed.
 
 (* ------------------------------------------------------------------ reading *)
-Fixpoint unpack_row (row : list Z) : list Z :=
-  match row with
-  | r :: g :: b :: a :: rest => unpack4 r g b a :: unpack_row rest
-  | _ => []
-  end.
-
 Lemma pd_pixel_spec pre r g b a post col : zlen pre = col * 4 ->
   pd_pixel (pre ++ r :: g :: b :: a :: post) 4 col = Ok (unpack4 r g b a).
 Proof.
@@ -577,6 +543,37 @@ Proof.
       * cbn [length]. rewrite I4. lia.
 Qed.
 
+(* ------------------------------------------------------------------ the closed forms equal the loop model *)
+Lemma wf_rowsb_spec w rows : wf_rowsb w rows = true -> wf_rows w rows.
+Proof.
+  unfold wf_rowsb, wf_rows. rewrite forallb_forall, Forall_forall. intros H row Hr.
+  specialize (H row Hr). apply andb_true_iff in H. destruct H as [H1 H2].
+  apply all_bytes_Forall in H2. split; [unfold zlen in H1; lia|exact H2].
+Qed.
+
+Lemma rows_fast_eq picodata planes rows :
+  rows_of_picodata_fast picodata planes rows = rows_of_picodata picodata planes rows.
+Proof.
+  unfold rows_of_picodata_fast.
+  destruct ((planes =? 4) && all_bytes picodata && wf_rowsb _ rows) eqn:E; [|reflexivity].
+  apply andb_true_iff in E. destruct E as [E E3]. apply andb_true_iff in E. destruct E as [E1 E2].
+  assert (planes = 4) by lia. subst planes. apply all_bytes_Forall in E2. apply wf_rowsb_spec in E3.
+  symmetry. apply rows_of_picodata_spec; assumption.
+Qed.
+
+Lemma picodata_fast_eq width height planes rows :
+  picodata_of_rows_fast width height planes rows = picodata_of_rows width height planes rows.
+Proof.
+  unfold picodata_of_rows_fast.
+  destruct ((planes =? 4) && (0 <=? width) && (zlen rows =? height) && wf_rowsb (Z.to_nat width) rows) eqn:E; [|reflexivity].
+  apply andb_true_iff in E. destruct E as [E E4]. apply andb_true_iff in E. destruct E as [E E3].
+  apply andb_true_iff in E. destruct E as [E1 E2].
+  assert (planes = 4) by lia. subst planes. assert (height = zlen rows) by lia. subst height.
+  apply wf_rowsb_spec in E4. symmetry.
+  replace width with (Z.of_nat (Z.to_nat width)) at 1 by lia.
+  apply picodata_of_rows_spec. exact E4.
+Qed.
+
 (* ------------------------------------------------------------------ whole image *)
 Lemma pack_rows_props w : forall rows bs, wf_rows w rows -> Forall byte bs ->
   (length bs <= w * length rows)%nat ->
@@ -613,27 +610,24 @@ Definition cart_bytes (c : cart) : Prop :=
 Definition norm_code (code : list Z) (compressed : bool) : list Z :=
   if compressed then cr2sp code else cr2sp (code ++ [10]).
 
-Definition is_compressed (code : list Z) : bool :=
-  match compress_code code with Ok comp => zlen comp <? zlen code | Err _ => false end.
-
 Lemma code_area text v : Forall byte text -> fits text -> no_nul text -> clean text = true -> text <> [58; 99; 58] ->
   exists area cl cs, get_bytes_from_code text = Ok area /\ zlen area = 15616 /\ Forall byte area /\
     get_code_from_bytes area v = Ok (cl, norm_code text (is_compressed text), cs).
 Proof.
-  intros Hb Hf Hn Hc Hm. destruct (gbc_fits text Hb Hf) as (comp & Ec & Ea).
+  intros Hb Hf Hn Hc Hm. destruct (gbc_fits text Hb Hf) as (comp & Ec & Ea & Hc1 & Hc2).
   assert (Hcb : Forall byte comp).
   { destruct (compress_code_correct text Hb) as (s & sfx & Es & Hs & _). congruence. }
-  unfold is_compressed. rewrite Ec. destruct Hf as (comp' & Ec' & Hf). rewrite Ec in Ec'. injection Ec' as <-.
   pose proof (zlen_nonneg text). pose proof (zlen_nonneg comp).
-  destruct (zlen comp <? zlen text) eqn:E.
-  - destruct Hf as [Hl Hfit]. destruct (gcb_compressed text comp v Hb Hl Hc Ec Hfit) as (cs & Eg).
+  destruct (is_compressed text) eqn:E.
+  - destruct (Hc1 eq_refl) as [Hl Hfit]. destruct (gcb_compressed text comp v Hb Hl Hc Ec Hfit) as (cs & Eg).
     eexists. exists (zlen text), (Some cs). split; [exact Ea|]. split; [|split; [|exact Eg]].
     + unfold zlen. cbn [length]. rewrite app_length, repeat_length. unfold zlen in *. lia.
     + destruct (len_hi_lo (zlen text) ltac:(lia)) as (_ & _ & B1 & B2).
       unfold byte in B1, B2.
       repeat (constructor; [unfold byte; lia|]). apply Forall_app. split; [exact Hcb|].
       apply Forall_forall. intros x Hx. apply repeat_spec in Hx. subst. unfold byte. lia.
-  - eexists. exists (zlen text), None. split; [exact Ea|]. split; [|split; [|apply gcb_raw; assumption]].
+  - pose proof (Hc2 eq_refl) as Hl.
+    eexists. exists (zlen text), None. split; [exact Ea|]. split; [|split; [|apply gcb_raw; assumption]].
     + rewrite zlen_app. unfold zlen at 2. rewrite repeat_length. lia.
     + apply Forall_app. split; [exact Hb|].
       apply Forall_forall. intros x Hx. apply repeat_spec in Hx. subst. unfold byte. lia.
@@ -659,11 +653,180 @@ Proof.
   destruct (pack_rows_props 160 img pd Hrows Hpb) as ((extra & P1) & P2 & P3 & P4).
   { rewrite Hn. unfold zlen in Hpl. lia. }
   exists (pack_rows 160 img pd). unfold write_png_pixels. rewrite Ea. cbn [bind]. rewrite Ej. cbn [bind].
+  rewrite rows_fast_eq.
   split; [apply rows_of_picodata_spec; assumption|]. split; [split; [lia|exact P3]|]. split; [exact P2|].
-  unfold read_png_pixels.
+  unfold read_png_pixels. rewrite picodata_fast_eq.
   pose proof (picodata_of_rows_spec 160 (pack_rows 160 img pd) P3) as Hr.
   replace (zlen (pack_rows 160 img pd)) with 205 in Hr by (unfold zlen; rewrite P4, Hn; reflexivity).
   change (Z.of_nat 160) with 160 in Hr. rewrite Hr. cbn [bind]. rewrite P1.
   destruct (layout c area extra Hwf Hal) as (pd' & Ej' & _ & Es). rewrite Ej in Ej'. injection Ej' as <-.
   rewrite Es. cbn [bind r_codedata r_version r_gfx r_map r_gff r_music r_sfx]. rewrite Eg. reflexivity.
+Qed.
+
+Lemma write_refuse c planes img : Forall byte (c_code c) -> ~ fits (c_code c) ->
+  write_png_pixels c planes img = Err ValueError.
+Proof. intros Hb Hf. unfold write_png_pixels. rewrite (gbc_refuse _ Hb Hf). reflexivity. Qed.
+
+(* non-vacuity witnesses *)
+Lemma fits_example : fits (unBS "print(1)"%bs) /\ no_nul (unBS "print(1)"%bs) /\ clean (unBS "print(1)"%bs) = true.
+Proof.
+  split; [|split].
+  - eexists. split; [vm_compute; reflexivity|]. left. vm_compute. discriminate.
+  - repeat constructor; discriminate.
+  - vm_compute. reflexivity.
+Qed.
+
+(* ------------------------------------------------------------------ the instance predicates hold of the model *)
+(* the format's reading of a pixel (Spec/P8PngSpec.v, arithmetic) is the code's (kernels, bit operations) *)
+Definition px_fields_ok (t : Z) : bool :=
+  let a := t / 64 in let r := (t / 16) mod 4 in let g := (t / 4) mod 4 in let b := t mod 4 in
+  Z.lor (Z.lor (Z.lor (Z.lor 0 (Z.shiftl b (0 * 2))) (Z.shiftl g (1 * 2))) (Z.shiftl r (2 * 2))) (Z.shiftl a (3 * 2))
+  =? a * 64 + r * 16 + g * 4 + b.
+Lemma px_fields_ok_all : forallb px_fields_ok (upto 256) = true.
+Proof. vm_compute. reflexivity. Qed.
+
+Lemma land3 v : Z.land v 3 = v mod 4.
+Proof. change 3 with (Z.ones 2). rewrite Z.land_ones by lia. reflexivity. Qed.
+
+Lemma px_byte_unpack4 r g b a : px_byte r g b a = unpack4 r g b a.
+Proof.
+  unfold px_byte, unpack4, pd_val_0, pd_val_1, pd_val_2, pd_val_3. cbn [Z.mul Z.add Z.eqb Pos.eqb].
+  rewrite !land3.
+  set (t := (a mod 4) * 64 + (r mod 4) * 16 + (g mod 4) * 4 + b mod 4).
+  assert (Ht : 0 <= t < 256) by (unfold t; lia).
+  assert (E := sweep_upto _ 256 px_fields_ok_all t Ht). unfold px_fields_ok in E. cbv zeta in E.
+  replace (t / 64) with (a mod 4) in E by (unfold t; lia).
+  replace ((t / 16) mod 4) with (r mod 4) in E by (unfold t; lia).
+  replace ((t / 4) mod 4) with (g mod 4) in E by (unfold t; lia).
+  replace (t mod 4) with (b mod 4) in E by (unfold t; lia).
+  apply Z.eqb_eq in E. symmetry. exact E.
+Qed.
+
+Lemma row_bytes_unpack row : row_bytes row = unpack_row row.
+Proof.
+  assert (H : forall n row, (length row <= n)%nat -> row_bytes row = unpack_row row).
+  { induction n as [|n IH]; intros l Hl.
+    - destruct l; [reflexivity|cbn in Hl; lia].
+    - destruct l as [|r [|g [|b [|a rest]]]]; try reflexivity.
+      cbn [row_bytes unpack_row]. rewrite px_byte_unpack4. f_equal. apply IH. cbn in Hl. lia. }
+  apply (H (length row)). lia.
+Qed.
+
+Lemma rom_unpack rows : rom_of_rows rows = concat (map unpack_row rows).
+Proof.
+  unfold rom_of_rows. rewrite flat_map_concat_map. f_equal. apply map_ext. apply row_bytes_unpack.
+Qed.
+
+Lemma rows_eqb_refl rows : rows_eqb rows rows = true.
+Proof.
+  induction rows as [|x r IH]; [reflexivity|]. cbn. rewrite IH, andb_true_r. apply zlist_eqb_eq. reflexivity.
+Qed.
+
+Lemma zlist_eqb_refl l : zlist_eqb l l = true.
+Proof. apply zlist_eqb_eq. reflexivity. Qed.
+
+Lemma shape_ok_wf rows : wf_img rows -> shape_ok rows = true.
+Proof.
+  intros (Hn & Hr). unfold shape_ok, img_height, img_width.
+  assert (E : (zlen rows =? 205) = true) by (unfold zlen; lia). rewrite E. cbn [andb].
+  apply forallb_forall. intros row Hin. unfold wf_rows in Hr. rewrite Forall_forall in Hr.
+  destruct (Hr row Hin) as (Hl & Hb). apply andb_true_iff. split; [unfold zlen; lia|apply all_bytes_Forall; exact Hb].
+Qed.
+
+Lemma sub_py_slice (l : list Z) lo hi : 0 <= lo <= hi -> hi <= zlen l -> sub l lo hi = py_slice l lo hi.
+Proof. intros H1 H2. unfold sub. rewrite py_slice_inrange by assumption. reflexivity. Qed.
+
+Lemma until_nul_zeros n : until_nul (repeat 0 n) = [].
+Proof. destruct n; reflexivity. Qed.
+
+Lemma until_nul_text text n : no_nul text -> until_nul (text ++ repeat 0 n) = text.
+Proof.
+  induction 1 as [|c t Hc Ht IH]; cbn [app until_nul]; [apply until_nul_zeros|].
+  assert (E : (c =? 0) = false) by lia. rewrite E, IH. reflexivity.
+Qed.
+
+Lemma area_text_model text : Forall byte text -> fits text -> no_nul text -> text <> [58; 99; 58] ->
+  exists area, get_bytes_from_code text = Ok area /\ area_text area = Some text.
+Proof.
+  intros Hb Hf Hn Hm. destruct (gbc_fits text Hb Hf) as (comp & Ec & Ea & Hc1 & Hc2).
+  eexists. split; [exact Ea|]. pose proof (zlen_nonneg text) as H0.
+  destruct (is_compressed text) eqn:E.
+  - destruct (Hc1 eq_refl) as [Hl Hfit].
+    destruct (compress_code_correct text Hb) as (s & sfx & Es & _ & _ & _ & Hd). rewrite Ec in Es. injection Es as <-.
+    unfold area_text, decode_area. cbn [starts_with pxc_magic app unBS Z.eqb Pos.eqb andb skipn].
+    change (starts_with [] _) with true. cbn [andb].
+    replace (zlen text / 256 * 256 + zlen text mod 256) with (zlen text) by lia.
+    rewrite Hd. reflexivity.
+  - pose proof (Hc2 eq_refl) as Hl. unfold area_text, decode_area.
+    assert (Es : starts_with pxc_magic (text ++ repeat 0 (Z.to_nat (15616 - zlen text))) = false).
+    { destruct (starts_with _ _) eqn:Es; [|reflexivity]. exfalso.
+      apply starts_with_app in Es. destruct Es as (r & Er). unfold pxc_magic in Er. cbn [app unBS] in Er.
+      destruct text as [|a [|b [|c [|d t]]]]; cbn in Er.
+      - destruct (Z.to_nat _); discriminate.
+      - injection Er as -> Er. destruct (Z.to_nat _); discriminate.
+      - injection Er as -> -> Er. destruct (Z.to_nat _); discriminate.
+      - injection Er as -> -> -> _. apply Hm. reflexivity.
+      - injection Er as -> -> -> -> _. unfold no_nul in Hn. rewrite Forall_forall in Hn.
+        apply (Hn 0); [right; right; right; left; reflexivity|reflexivity]. }
+    rewrite Es. rewrite until_nul_text by exact Hn. reflexivity.
+Qed.
+
+Lemma py_get_inv {A} (l : list A) i v : 0 <= i -> py_get l i = Ok v -> nth_error l (Z.to_nat i) = Some v.
+Proof.
+  intros Hi H. unfold py_get in H. assert (E : (i <? 0) = false) by lia. rewrite E in H.
+  destruct ((i <? 0) || (zlen l <=? i)); [discriminate|].
+  destruct (nth_error l (Z.to_nat i)); [congruence|discriminate].
+Qed.
+
+Lemma holds_model c img :
+  wf_cart c -> cart_bytes c -> wf_img img ->
+  fits (c_code c) -> no_nul (c_code c) -> clean (c_code c) = true -> c_code c <> [58; 99; 58] ->
+  exists rows c', write_png_pixels c 4 img = Ok rows /\ read_png_pixels 160 205 4 rows = Ok c' /\
+    holds_C04_image (c_gfx c) (c_map c) (c_gff c) (c_music c) (c_sfx c) (c_code c) (c_version c) img rows = true /\
+    holds_C04_readback (c_gfx c) (c_map c) (c_gff c) (c_music c) (c_sfx c) (c_code c) (c_version c)
+                       (c_gfx c') (c_map c') (c_gff c') (c_music c') (c_sfx c') (c_code c') (c_version c') = true.
+Proof.
+  intros Hwf Hcb Himg Hf Hnn Hc Hm.
+  destruct (cart_roundtrip c img Hwf Hcb Himg Hf Hnn Hc Hm) as (rows & Ew & Hwr & Hu & Er).
+  eexists rows, _. split; [exact Ew|]. split; [exact Er|]. split.
+  - (* the image *)
+    destruct Hcb as (B1 & B2 & B3 & B4 & B5 & B6).
+    destruct (area_text_model (c_code c) B6 Hf Hnn Hm) as (area & Ea & Hat).
+    destruct (code_area (c_code c) (c_version c) B6 Hf Hnn Hc Hm) as (area' & cl & cs & Ea' & Hal & Hab & _).
+    rewrite Ea in Ea'. injection Ea' as <-.
+    destruct (layout c area [] Hwf Hal) as (pd & Ej & Hpl & _).
+    assert (Hpb : Forall byte pd).
+    { unfold join_mem, bytes_of_ints in Ej. destruct Hwf as (_ & _ & _ & _ & _ & Hv).
+      assert (Eb : all_bytes [c_version c] = true) by (apply all_bytes_Forall; constructor; [exact Hv|constructor]).
+      rewrite Eb in Ej. cbn [bind] in Ej. injection Ej as <-.
+      unfold png_join_order. cbn [map concat section_by_id Z.eqb Pos.eqb]. rewrite app_nil_r.
+      repeat (apply Forall_app; split); try assumption. constructor; [exact Hv|constructor]. }
+    destruct Himg as (Hn & Hrows).
+    destruct (pack_rows_props 160 img pd Hrows Hpb) as ((extra & P1) & _ & _ & _).
+    { rewrite Hn. unfold zlen in Hpl. lia. }
+    assert (Erows : rows = pack_rows 160 img pd).
+    { unfold write_png_pixels in Ew. rewrite Ea in Ew. cbn [bind] in Ew. rewrite Ej in Ew. cbn [bind] in Ew.
+      rewrite rows_fast_eq in Ew. rewrite (rows_of_picodata_spec pd 160 img Hpb Hrows) in Ew. congruence. }
+    destruct (layout c area extra Hwf Hal) as (pd' & Ej' & _ & Es). rewrite Ej in Ej'. injection Ej' as <-.
+    unfold holds_C04_image. rewrite (shape_ok_wf rows Hwr).
+    change (label_of rows) with (upper6 rows). change (label_of img) with (upper6 img). rewrite Hu, rows_eqb_refl.
+    cbn [andb]. rewrite rom_unpack, Erows, P1.
+    assert (Hlen : zlen (pd ++ extra) >= 32769) by (rewrite zlen_app; pose proof (zlen_nonneg extra); lia).
+    unfold split_mem in Es.
+    destruct (py_get (pd ++ extra) raw_version_idx) as [v|] eqn:Ev; [|discriminate]. cbn [bind] in Es.
+    injection Es as S1 S2 S3 S4 S5 S6 S7.
+    unfold fields_of_rom. cbn [f_gfx f_map f_gff f_music f_sfx f_code_area f_version].
+    unfold raw_gfx_lo, raw_gfx_hi, raw_p8map_lo, raw_p8map_hi, raw_gfx_props_lo, raw_gfx_props_hi,
+      raw_song_lo, raw_song_hi, raw_sfx_lo, raw_sfx_hi, raw_codedata_lo, raw_codedata_hi in *.
+    rewrite !sub_py_slice by lia. rewrite S1, S2, S3, S4, S5, S6, !zlist_eqb_refl. cbn [andb].
+    assert (Env : nth_error (pd ++ extra) (Z.to_nat 32768) = Some (c_version c)).
+    { rewrite <- S7. apply py_get_inv; [lia|exact Ev]. }
+    rewrite Env, Z.eqb_refl, Hat, zlist_eqb_refl. reflexivity.
+  - (* the cart read back *)
+    cbn [c_gfx c_map c_gff c_music c_sfx c_code c_version]. unfold holds_C04_readback.
+    rewrite !zlist_eqb_refl, Z.eqb_refl. cbn [andb]. unfold code_equiv, norm_code.
+    change cr_to_space with cr2sp.
+    destruct (is_compressed (c_code c)).
+    + rewrite zlist_eqb_refl, !orb_true_r. reflexivity.
+    + unfold cr2sp. rewrite map_app. cbn [map Z.eqb Pos.eqb]. rewrite zlist_eqb_refl, !orb_true_r. reflexivity.
 Qed.
